@@ -175,6 +175,7 @@ class Program:
         if os.environ.get('AEIC_VERIF_NO_ALPHA') != '1':
             from . import alpha
             self.alpha_renamed = getattr(self, 'alpha_renamed', 0) + alpha.reshape_calls(self)
+            self.alpha_renamed += alpha.reextract_all(self)
 
     # -- loading ---------------------------------------------------------
     def _load_tree(self, sub: str, pkg: str | None = 'AEIC'):
